@@ -280,6 +280,17 @@ fn main() {
           show_edits(&hooks::module_diff_edits(&heap, ModuleReference::DUMMY, &old, &new))
         }
         "sum" => summarize(&unhex_str(t[1])),
+        // the whole module pretty-printed (text of the full-document edit)
+        "pmod" => {
+          let text = unhex_str(t[1]);
+          let mut heap = Heap::new();
+          let mut es = ErrorSet::new();
+          let m = samlang_parser::parse_source_module_from_text(&text, ModuleReference::DUMMY, &mut heap, &mut es);
+          if es.has_errors() {
+            return "skip".to_string();
+          }
+          hex(samlang_printer::pretty_print_source_module(&heap, 100, &m).as_bytes())
+        }
         // locations of the toplevels of a text + each rendered the way `to_edit` renders it
         "tlocs" => {
           let text = unhex_str(t[1]);
